@@ -38,6 +38,12 @@ pipe_destroy(void *arg)
 {
 	nni_pipe *p = arg;
 
+#ifdef NNG_ENABLE_STATS
+	// The pipe may have been registered after it was reaped (it can be
+	// closed while dialer/listener_start_pipe is still running).
+	nni_stat_unregister(&p->st_root);
+#endif
+
 	p->p_proto_ops.pipe_fini(p->p_proto_data);
 	p->p_tran_ops.p_fini(p->p_tran_data);
 
